@@ -760,6 +760,14 @@ fn compress_bulk<T: OffsetSizeTrait>(
 ) -> io::Result<()> {
     let mut out_curr = *out_pos;
 
+    // every input byte produces at most two output bytes (escape code + literal) and the escaped byte is written
+    // speculatively one position ahead of the code: make sure `out` can hold the worst case, the size check in
+    // `FsstEncoder::init` only asks for `in_buf.len()`
+    let worst_case = out_curr + 2 * strs.len() + 2;
+    if out.len() < worst_case {
+        out.resize(worst_case, 0);
+    }
+
     let mut compress = |buf: &[u8], in_end: usize, out_curr: &mut usize| {
         let mut in_curr = 0;
         while in_curr < in_end {
@@ -817,6 +825,12 @@ fn decompress_bulk<T: OffsetSizeTrait>(
 ) -> io::Result<()> {
     let symbols = decoder.symbols;
     let lens = decoder.lens;
+    // a code expands to at most 8 bytes and every symbol is stored with an unchecked 8-byte write: make sure `out`
+    // can hold the worst case, the size check in `FsstDecoder::init` only asks for `3 * in_buf.len()`
+    let worst_case = *out_pos + 8 * compressed_strs.len() + 8;
+    if out.len() < worst_case {
+        out.resize(worst_case, 0);
+    }
     let mut decompress = |mut in_curr: usize, in_end: usize, out_curr: &mut usize| {
         // Do SIMD operation here by 4 bytes
         while in_curr + 4 <= in_end {
